@@ -1595,6 +1595,17 @@ class Interp:
                     return [args[0][i] for i in order]
                 if args[0]:
                     return args[0][order[0]] if (name == 'min') != kwargs.get('reverse', False) else args[0][order[-1]]
+        if name in ('Fraction', 'Decimal') and args and all(is_conc(a) and isinstance(a, (int, float, str)) or type(a).__name__ in ('Fraction', 'Decimal') for a in args) and not kwargs \
+                and self.repo.resolve_name(self.modname, name) is None:
+            # exact rational / decimal numbers of the standard library, folded on constants
+            import fractions
+            import decimal
+            try:
+                return fractions.Fraction(*args) if name == 'Fraction' else decimal.Decimal(*args)
+            except Exception as e:
+                raise AnalysisError('%s on constants fails: %r' % (name, e))
+        if name == 'repr' and len(args) == 1 and not kwargs and isinstance(args[0], (int, float, str, bytes, bool)) :
+            return repr(args[0])
         if name in ('min', 'max', 'abs', 'sum', 'sorted', 'ord', 'chr', 'pow', 'divmod', 'round', 'float', 'any', 'all', 'reversed', 'hex', 'bin', 'enumerate', 'zip') and all(is_conc(a) for a in args) and not kwargs and args:
             import builtins
             try:
